@@ -73,6 +73,20 @@ theorem fact_vault_path_construction :
     C03.vaultKeyPathBody = "path := fmt.Sprintf(\"%s/%s/%s\", prefix, privateKeyPathName, filepath.Base(kid)) ; return filepath.Clean(path)" := by
   decide
 
+/-- **the Lean predicate IS the pattern.** For the pattern tree regenerated from `spi.KidPattern` (Go's own
+    `regexp/syntax` parse): the executable predicate `kidMatches`, which the driver runs against the real regexp,
+    accepts exactly the strings in the textbook language of `^…$` of that tree. -/
+theorem kid_pattern_language (cls hex : Ranges) (hshape : kidClasses C03.kidPatternRx = some (cls, hex)) (s : Bytes) :
+    kidMatches cls hex s = true ↔ C03.kidPatternRx.FullMatch s := by
+  have hsafe := fact_classes_safe cls hex hshape
+  unfold ClassesSafe at hsafe
+  simp only [Bool.and_eq_true] at hsafe
+  have hpct : inRanges cls PCT = false := by
+    cases h : inRanges cls PCT with
+    | false => rfl
+    | true => exact absurd rfl (inRanges_avoid hsafe.2 h)
+  exact fullMatch_kid _ cls hex hshape hpct s
+
 /-- what a validated key name looks like -/
 theorem valid_kid_bytes (cls hex : Ranges) (hshape : kidClasses C03.kidPatternRx = some (cls, hex))
     (refused : List Bytes) (kid : Bytes) (hv : validateKID cls hex refused kid = true) :
